@@ -12,6 +12,28 @@ LOG_MACROS = ('debug', 'info', 'warn', 'trace', 'error')
 _LOG_PAT = re.compile(r'\b(?:tracing::)?(' + '|'.join(LOG_MACROS) + r')!\s*\(')
 
 
+def _risky_args(inner):
+    """positional arguments of a log / format macro that can PANIC when evaluated: the ones that index or slice (`x[..]`) or unwrap.
+    (The macro evaluates its arguments; dropping the macro must not drop a panic.  Plain paths, method calls and literals cannot panic
+    and are dropped with the text.)"""
+    from rustlex import split_top
+    parts = [a.strip() for a in split_top(inner, ',')]
+    out = []
+    seen_fmt = False
+    for a in parts:
+        if not a:
+            continue
+        if not seen_fmt:
+            if a.startswith('"') or a.startswith('r"') or a.startswith('r#"'):
+                seen_fmt = True
+            continue      # tracing fields / target before the format string
+        if re.match(r'^\w+\s*=[^=]', a) or a[0] in '%?':
+            continue
+        if '[' in a or '.unwrap()' in a or '.expect(' in a:
+            out.append(a)
+    return out
+
+
 def r1_strip_log_macros(text):
     out = []
     i = 0
@@ -22,14 +44,19 @@ def r1_strip_log_macros(text):
             out.append(text[i:])
             break
         out.append(text[i:m.start()])
-        j = match_bracket(text, m.end() - 1, '(', ')') + 1
+        op = m.end() - 1
+        cp = match_bracket(text, op, '(', ')')
+        risky = _risky_args(text[op + 1:cp])
+        keep = ('{ let _ = (' + ''.join('&(%s), ' % a for a in risky) + '); }') if risky else ''
+        j = cp + 1
         k = j
         while k < len(text) and text[k] in ' \t':
             k += 1
         if k < len(text) and text[k] == ';':
             j = k + 1
+            out.append(keep)
         else:
-            out.append('()')
+            out.append(keep or '()')
         cnt += 1
         i = j
     return ''.join(out), cnt
@@ -44,7 +71,9 @@ def r2_format(text):
         if not m:
             break
         j = match_bracket(text, m.end() - 1, '(', ')')
-        text = text[:m.start()] + 'String::new()' + text[j + 1:]
+        risky = _risky_args(text[m.end():j])
+        rep = ('{ let _ = (' + ''.join('&(%s), ' % a for a in risky) + '); String::new() }') if risky else 'String::new()'
+        text = text[:m.start()] + rep + text[j + 1:]
         cnt += 1
     return text, cnt
 
